@@ -26,10 +26,31 @@ W.externs['dawgie.util.task_module'] = Extern(fn=lambda ex, args, kwargs, e: V(t
 W.methods[('Timing', '__setitem__')] = lambda ex, recv, args, kwargs, line: None
 
 
+PUTRID = MapOf(NODE, INT)
+
+
+def _drawn_once(c):
+    """the run id drawn for the job before its units are put (the local `runid`); if the code no longer draws it once per
+    job there is no such value and the invariant cannot hold"""
+    try:
+        return c.loc('runid')
+    except KeyError:
+        return z3.Int('run_id_drawn_once_for_the_job')
+
+W.declare_global('ghost.put_runid', PUTRID)         # ghost: the run id the units of a job were given in this dispatch
+
+
+def _put_ghost(ex, args, line):
+    g = ex.st.glob['ghost.put_runid']
+    ex._note_write('ghost.put_runid', line)
+    ex.st.glob['ghost.put_runid'] = z3.Store(g, args['job'], PUTRID.opt.some(args['runid']))
+
+
 @contract(W, 'dawgie/pl/farm.py', '_put', props=['C03', 'C11'])
 class put(ContractBase):
     params = {'job': NODE, 'runid': INT, 'target': Opt(ATOM), 'where': DIST}
-    modifies = [CLUSTER, CLOUD]
+    modifies = [CLUSTER, CLOUD, 'ghost.put_runid']
+    ghost_body = staticmethod(_put_ghost)      # ghost statement at entry when _put itself is verified; callers see the ensures clause
     abstract = {"'.'.join([target if target else '__all__', job.tag])": ATOM,
                 'insights[key].summary if key in insights else dawgie.Distribution.cluster': DIST,
                 'datetime.datetime.now(datetime.UTC)': None, "{'scheduled': now}": None}
@@ -47,14 +68,17 @@ class put(ContractBase):
                        MSG.get(m, 'jobid') == OA.some(tag(c.old, j)), MSG.get(m, 'runid') == OI.some(c['runid']), MSG.get(m, 'target') == c['target'],
                        MSG.get(m, 'type') == MTYPE.const('task'),
                        MSG.get(m, 'factory') == Opt(FACREF).some(FACREF.mk(task_module(fac), c.old.f('Factory.__name__', fac))))
-        return {'exactly-one-message-for-the-unit': Or(And(appended(q0, q1), d1 == d0), And(appended(d0, d1), q1 == q0))}
+        return {'exactly-one-message-for-the-unit': Or(And(appended(q0, q1), d1 == d0), And(appended(d0, d1), q1 == q0)),
+                'ghost.run-id-of-the-job-recorded': c.cur.g('ghost.put_runid') == z3.Store(c.old.g('ghost.put_runid'), j, PUTRID.opt.some(c['runid']))}
 
     def requires(c):
         t = c['target']
         return {'len': And(LM.len(c.old.g(CLUSTER)) >= 0, LM.len(c.old.g(CLOUD)) >= 0),
                 'agency-slot': ListOf(Opt(Ref('Agency'))).len(c.old.g('dawgie.pl.farm._agency')) == 1,     # module constant [None]; plow() assigns slot 0
                 # a message is made only for a unit that was released (is in the job's `do`), never for one merely executing
-                'unit-was-released': Or(OA.is_none(t), do_(c.old, c['job'])[OA.val(t)])}
+                'unit-was-released': Or(OA.is_none(t), do_(c.old, c['job'])[OA.val(t)]),
+                # every unit of one job released by one dispatch carries the same run id (it is drawn once per job)
+                'one-run-id-per-job': Or(PUTRID.opt.is_none(c.old.g('ghost.put_runid')[c['job']]), PUTRID.opt.val(c.old.g('ghost.put_runid')[c['job']]) == c['runid'])}
 
 
 def _unit(ex, e):
@@ -164,7 +188,7 @@ def J_do(view):
 @contract(W, 'dawgie/pl/farm.py', 'dispatch', props=['C03', 'C11'])
 class dispatch(ContractBase):
     params = {}
-    modifies = [JOBS, CLUSTER, CLOUD, BUSY, WK, 'dawgie.pl.farm._time', 'dawgie.pl.farm._reject', 'dawgie.pl.farm._repeat', 'Hand.ghost_sent', TASKS,
+    modifies = ['ghost.put_runid', JOBS, CLUSTER, CLOUD, BUSY, WK, 'dawgie.pl.farm._time', 'dawgie.pl.farm._reject', 'dawgie.pl.farm._repeat', 'Hand.ghost_sent', TASKS,
                 'Transport.closed', 'Node.todo', 'Node.doing', 'Node.do', 'Node.status', 'FSM.state', 'ghost.archive_triggered']
     assumes = [fsm_distinct_events]
     methods = {('FSM', 'archiving_trigger'): _archiving_trigger}
@@ -178,7 +202,8 @@ class dispatch(ContractBase):
                             ListOf(Opt(Ref('Agency'))).len(c.old.g('dawgie.pl.farm._agency')) == 1),
                 'no-cloud-agency': Opt(Ref('Agency')).is_none(ListOf(Opt(Ref('Agency'))).arr(c.old.g('dawgie.pl.farm._agency'))[0]),
                 # only the cloud agency's callback (_move) ever fills these two lists
-                'nothing-rejected-or-repeated': And(LR.len(c.old.g('dawgie.pl.farm._reject')) == 0, LR.len(c.old.g('dawgie.pl.farm._repeat')) == 0)}
+                'nothing-rejected-or-repeated': And(LR.len(c.old.g('dawgie.pl.farm._reject')) == 0, LR.len(c.old.g('dawgie.pl.farm._repeat')) == 0),
+                'no-unit-put-yet': c.old.g('ghost.put_runid') == PUTRID.empty()}
 
     def ensures(c):
         h = c.sk('h', HAND)
@@ -200,11 +225,20 @@ class dispatch(ContractBase):
                 'workers': c.cur.g(WK) == c.old.g(WK),
                 'archived': c.cur.g('ghost.archive_triggered') == c.entry.g('ghost.archive_triggered'),
                 'lens': And(LM.len(c.cur.g(CLUSTER)) >= 0, LM.len(c.cur.g(CLOUD)) >= 0),
-                'archive-means-nothing-queued': Implies(c.entry.g('ghost.archive_triggered'), And(c.it == ListSet(NODE).empty(), LM.len(c.cur.g(CLUSTER)) == 0))}
+                'archive-means-nothing-queued': Implies(c.entry.g('ghost.archive_triggered'), And(c.it == ListSet(NODE).empty(), LM.len(c.cur.g(CLUSTER)) == 0)),
+                'units-only-of-jobs-handled': Implies(Not(PUTRID.opt.is_none(c.cur.g('ghost.put_runid')[n])), c.done[n])}
 
     def _inv_put(c):
         h = c.sk('h', HAND)
-        return {'J_do': J_do(c.cur), 'no-tasks-yet': c.cur.f(TASKS, h) == c.old.f(TASKS, h), 'workers': c.cur.g(WK) == c.old.g(WK),
+        n = c.sk('n', NODE)
+        j = c.loc('j')
+        P = c.cur.g('ghost.put_runid')
+        outer = c.outer_done('for j in _jobs.copy()')
+        return {'units-only-of-jobs-handled': Implies(And(Not(PUTRID.opt.is_none(P[n])), n != j), outer[n]),
+                # (regressions always run under id 0, the others under the id drawn once for the job)
+                'one-run-id-for-this-job': Or(PUTRID.opt.is_none(P[j]), PUTRID.opt.val(P[j]) == If(
+                    c.cur.f('Factory.__name__', c.cur.f('Node.factory', j)) == atom('regress'), 0, _drawn_once(c))),
+                'J_do': J_do(c.cur), 'no-tasks-yet': c.cur.f(TASKS, h) == c.old.f(TASKS, h), 'workers': c.cur.g(WK) == c.old.g(WK),
                 'jobs': c.cur.g(JOBS) == c.entry.g(JOBS), 'lens': And(LM.len(c.cur.g(CLUSTER)) >= 0, LM.len(c.cur.g(CLOUD)) >= 0)}
 
     def _inv_assign(c):
@@ -216,7 +250,7 @@ class dispatch(ContractBase):
                 'one-each': And(got >= 0, got <= 1, got <= c.done, Implies(got == 1, And(wk0[h], Not(wk[h]))), Implies(wk[h], wk0[h])),
                 'J_do': J_do(c.cur), 'archived': c.cur.g('ghost.archive_triggered') == c.entry.g('ghost.archive_triggered')}
 
-    loops = {'for j in _jobs.copy()': Loop(inv=_inv_jobs, modifies=[JOBS, CLUSTER, CLOUD, 'Node.do', 'Node.status']),
+    loops = {'for j in _jobs.copy()': Loop(inv=_inv_jobs, modifies=[JOBS, CLUSTER, CLOUD, 'Node.do', 'Node.status', 'ghost.put_runid']),
              'for alg in ': Loop(inv=lambda c: {}, modifies=[]),
-             "for t in sorted(list(j.get('do')))": Loop(inv=_inv_put, modifies=[CLUSTER, CLOUD]),
+             "for t in sorted(list(j.get('do')))": Loop(inv=_inv_put, modifies=[CLUSTER, CLOUD, 'ghost.put_runid']),
              'for dummy in range(': Loop(inv=_inv_assign, modifies=[WK, CLUSTER, BUSY, 'dawgie.pl.farm._time', 'Hand.ghost_sent', TASKS])}
